@@ -335,3 +335,9 @@ Definition qpow := pow Qc q1 qgmul_res.
 Definition qeval := poly_eval Qc q0 q1 Qcplus Qcmult.
 Definition qdiff := dict_diff Qc q0 Qcmult qeqb qofN.
 Definition qdivides := divides Qc q0 Qcminus Qcopp qeqb qdivx qgmul_res.
+(* the representation limit of ODictWrapper::mul (exponents) made observable, as above *)
+Definition qgmul_chk (a b : qdict) : res qdict :=
+  if (degree a + degree b <? W32)%N then Ok (qgmul a b) else ErrExn EXN_LIMIT.
+Definition qpow_fits (a : qdict) (p : N) : bool := is_ok (pow Qc q1 qgmul_chk a p).
+Definition qdivides_fits (a b : qdict) : bool :=
+  is_ok (divides Qc q0 Qcminus Qcopp qeqb qdivx qgmul_chk a b).
